@@ -69,12 +69,13 @@ impl FeatureRewriterBuilder {
             } else {
                 Pattern::Exact(p.to_string())
             };
-            for action in &self.nodes[cursor].actions {
-                if let Action::Transition(edge) = action {
-                    if parsed == edge.pattern {
-                        cursor = edge.target;
-                        continue 'a;
-                    }
+            // An existing edge is shared only if it is the last action of the node. Actions are
+            // tried in insertion order, so sharing an earlier edge would let this rule overtake
+            // the rules registered in between.
+            if let Some(Action::Transition(edge)) = self.nodes[cursor].actions.last() {
+                if parsed == edge.pattern {
+                    cursor = edge.target;
+                    continue 'a;
                 }
             }
             let target = self.nodes.len();
